@@ -14,7 +14,7 @@ import sched_threads as st
 
 LABELS = {"start": "LStart", "ev.is_set": "LEvIsSet", "ev.set": "LEvSet", "q.put": "LQPut", "q.get": "LQGet",
           "q.empty": "LQEmpty", "sem.acquire": "LSemAcq", "sem.release": "LSemRel", "sleep": "LSleep", "src.next": "LSrcNext",
-          "th.is_alive": "LIsAlive"}     # LIsAlive occurs in oracle-only cases (alive_yield), which are not replayed on the model
+          "th.is_alive": "LIsAlive", "sem.value": "LSemValue"}     # LIsAlive occurs in oracle-only cases (alive_yield), which are not replayed on the model
 
 
 class SrcError(Exception):
@@ -278,7 +278,7 @@ def run_case(c):
     def digest():
         g = (len(objs["q"]) - 1) // nq
         qs = objs["q"][g * nq:(g + 1) * nq]
-        sem = objs["sem"][g]._value if g < len(objs["sem"]) else -1
+        sem = objs["sem"][g]._v if g < len(objs["sem"]) else -1
         idxs = []
         for k, q in enumerate(qs):
             # the snapshot store queue holds (version, snapshot); the data queues hold (payload, idx)
